@@ -9,6 +9,7 @@ from typing import Any, Iterator, NamedTuple
 
 from jinja2 import nodes
 
+from .. import lexstate as LX
 from .. import tplq
 from ..astutil import Locals, call_name, cfg_of, enclosing_loop_body, names_in, norm, receivers, region, role_anon, short, stmt_of, where
 from ..cfg import ENTRY, EXIT
@@ -33,7 +34,9 @@ def run(rep: Report, ctx: Any) -> str:
     rep.rule("R02.1", "writer/reader key agreement: field_dict.update({...}), field_dict[...] =, d.pop(...) (both forms) use the same "
                       "wire-key expression inside a \"...\" literal, the Python side is python_name everywhere; the writers together and "
                       "the pops together cover required and optional properties (loop domain x guards incl. loop filters, as truth "
-                      "tables); every other loop over the model's properties iterates required + optional")
+                      "tables); every other loop over the model's properties that prints code (a hole outside string literals and "
+                      "comments of the generated module) iterates required + optional, by itself or together with the loops that print "
+                      "the same text under the same conditions")
     rep.rule("R02.2", "both directions exist for every non-identity kind: if the Python type differs from the JSON type the template "
                       "defines construct and transform; construct_function is routed through construct_template; list and union call "
                       "construct / transform of the template imported for their inner property, with that inner property")
@@ -64,6 +67,19 @@ def run(rep: Report, ctx: Any) -> str:
         if isinstance(n, nodes.Add):
             l_, r_ = admitted(n.left), admitted(n.right)
             return None if l_ is None or r_ is None else l_ | r_
+        if isinstance(n, nodes.CondExpr):     # the domain depends on a condition: what is admitted whichever way it goes
+            l_, r_ = admitted(n.expr1), (admitted(n.expr2) if n.expr2 is not None else set())
+            return None if l_ is None or r_ is None else l_ & r_
+        if isinstance(n, (nodes.List, nodes.Tuple)) and not n.items:
+            return set()
+        if expr_text(n) in domain_lists:      # the variable of a loop over a literal list of domains: any of them
+            out: set[bool] = set()
+            for x in domain_lists[expr_text(n)]:
+                a_ = admitted(x)
+                if a_ is None:
+                    return None
+                out |= a_
+            return out
         if isinstance(n, nodes.Filter) and n.node is not None and n.name in ("selectattr", "rejectattr", "list"):
             inner = admitted(n.node)
             if n.name == "list" or inner is None:
@@ -72,7 +88,10 @@ def run(rep: Report, ctx: Any) -> str:
             return inner & ({True} if n.name == "selectattr" else {False}) if sel else None
         return {REQ: {True}, OPT: {False}}.get(expr_text(n))
 
-    prop_loops = [(f, leaves(f.iter)) for f in mt.tree.find_all(nodes.For)]
+    # (a loop over a literal list of domains, `for ps in [A, B]`, is no loop over properties: the loop over its variable is)
+    domain_lists = {f"{expr_text(f.iter)}[*]": list(lit.items) for f in mt.tree.find_all(nodes.For)
+                    for lit in [_inline(f.iter, mdefs)] if isinstance(lit, (nodes.List, nodes.Tuple)) and lit.items}
+    prop_loops = [(f, leaves(f.iter)) for f in mt.tree.find_all(nodes.For) if f"{expr_text(f.iter)}[*]" not in domain_lists]
     prop_loops = [(f, lv) for f, lv in prop_loops if any(REQ in x or OPT in x for x in lv)]
     rep.floor("property_loops", len(prop_loops), 4)
     loop_dom = {expr_text(f.iter): (admitted(f.iter) or set()) for f, lv in prop_loops}
@@ -150,23 +169,135 @@ def run(rep: Report, ctx: Any) -> str:
             rep.check(served(fr) <= {True}, "R02.1", "model.py.jinja::pop[required]::only-when-required",
                       "a property that is not required is popped without a default: a valid instance that omits it makes from_dict raise KeyError",
                       where=f"{PKG}/templates/model.py.jinja:{fr.line}", lhs=sorted(served(fr)), rhs=[True])
+    # Which loops carry this obligation.  A loop whose holes all land inside a string literal (not an f-string) or a comment of the
+    # generated module, and that writes / pops no wire key, prints documentation: whether it lists every property is no matter of
+    # the round trip.  The lexical context of a hole is the one the joint interpreter recorded for it (an unrecorded hole, e.g. the
+    # call of another template's macro, counts as code).  Loops that print the same text under the same conditions for a property
+    # (the loop's property written <p>, the alias of an imported template <tpl>, white space aside) are one loop written in pieces:
+    # together they must admit both values.
+    em_at: dict[int, list[Any]] = {}
+    for e in ji.emissions.values():
+        if e.template == mt.name:
+            em_at.setdefault(e.line, []).append(e)
+
+    def in_code(fr: tplq.Frag) -> bool:
+        ems = em_at.get(fr.line, [])
+        ems = [e for e in ems if e.expr == fr.text] or ems
+        return not ems or any(not ((LX.is_string(e.state) and "f" not in LX.string_info(e.state)[0]) or e.state in (LX.COMMENT, LX.INERT))
+                              for e in ems)
+
     site_nodes = [fr.via for fr in writers + readers]
+    role: dict[int, str | None] = {}
     for f, lv in prop_loops:
+        body = _region_frags(mt, f.body)
+        has_site = any(x is s for s in site_nodes for x in f.find_all(type(s)))
+        if not has_site and not any(fr.kind == "expr" and in_code(fr) for fr in body):
+            role[id(f)] = None
+            continue
+        aliases = sorted({i.target for i in f.find_all(nodes.Import)}, key=len, reverse=True)
+
+        def anon(t: str, own: str = f"{expr_text(f.iter)}[*]", aliases: list[str] = aliases) -> str:
+            t = t.replace(own, "<p>")
+            for a in aliases:
+                t = re.sub(rf"(?<![\w.]){re.escape(a)}(?![\w(])", "<tpl>", t)
+            return _strip_parens(t)
+
+        role[id(f)] = " ".join(((f"{{%for if {anon(expr_text(f.test))}%}}" if f.test is not None else "") + "".join((fr.text if fr.kind == "data" else "{{" + anon(fr.text) + "}}") + "".join(
+            f"{{%{'' if pol else 'not '}{anon(g)}%}}" for g, pol in fr.guards) for fr in body)).split())
+    rep.floor("property_loops_printing_code", sum(r is not None for r in role.values()), 3)
+    for f, lv in prop_loops:
+        if role[id(f)] is None:
+            continue
         txt = expr_text(_inline(f.iter, mdefs))
         has_site = any(x is s for s in site_nodes for x in f.find_all(type(s)))
         adm = loop_dom[expr_text(f.iter)]
-        ok = adm == {True, False} or (bool(adm) and has_site)
+        together: set[bool] = set()
+        for f2, _ in prop_loops:
+            if role[id(f2)] == role[id(f)]:
+                together |= loop_dom[expr_text(f2.iter)]
+        ok = together == {True, False} or (bool(adm) and has_site)
         rep.check(ok, "R02.1", f"model.py.jinja::domain[{txt}]@{_macro_of(mt, f)}",
                   "a loop over the model's properties iterates another domain than required + optional (a property would be written but "
                   "not read, or the reverse)", where=f"{PKG}/templates/model.py.jinja:{f.lineno}", lhs=txt, rhs=dom)
-    # python side: python_name everywhere
-    # python side: python_name everywhere: in a loop over the whole domain a keyword argument `<python_name>=<python_name>` is printed
     top = _region_frags(mt, mt.tree.body)
-    kw = [a for a, eq, b_ in zip(top, top[1:], top[2:]) if a.kind == "expr" and b_.kind == "expr" and eq.kind == "data" and eq.text.strip() == "="
-          and a.via is b_.via and a.loops and loop_dom.get(a.loops[-1]) == {True, False}
-          and strip_pv(a.text) == strip_pv(b_.text) == "<p>.python_name"]
-    rep.check(len(kw) >= 1, "R02.1", "model.py.jinja::constructor-keywords", "cls(...) is not called with python_name=python_name for every property",
-              where=f"{PKG}/templates/model.py.jinja", lhs=len(kw), rhs="<property.python_name>=<property.python_name> for every property")
+
+    # ---- R02.10: what from_dict decoded is what the object gets --------------------------------------------------------------------
+    rep.rule("R02.10", "the decoded value reaches the object unchanged: inside the argument list of cls(...), under every condition of the "
+                       "template, a property's keyword is python_name=python_name and nothing else (no default, no fallback in place of "
+                       "UNSET: the object must remember that the key was absent); in the loop that pops the keys, the property's local is "
+                       "assigned from the pop and from nothing else")
+    # the argument list: from the text `cls(` to the parenthesis that closes it, in output order
+    inside: set[int] = set()      # template lines of the pieces printed inside it
+    depth = 0
+    for fr in top:
+        if fr.kind == "expr":
+            if depth:
+                inside.add(fr.line)
+            continue
+        t = fr.text
+        k = 0
+        while k < len(t):
+            if not depth:
+                m = re.compile(r"\bcls\(").search(t, k)
+                if m is None:
+                    break
+                depth, k = 1, m.end()
+                continue
+            depth += (t[k] in "([{") - (t[k] in ")]}")
+            k += 1
+        if depth:
+            inside.add(fr.line)
+    n_ctor = 0
+    ctor_dom: set[bool] = set()
+    for f, lv in prop_loops:
+        # (the printed call of a macro of this template is followed by what the macro prints: the call itself is no piece of text)
+        body = [fr for fr in _region_frags(mt, [f]) if fr.kind == "data" or _bound_body(mt, _unfiltered(fr.node)) is None]
+        if not any(fr.kind == "expr" and fr.line in inside for fr in body):
+            continue
+        n_ctor += 1
+        ctor_dom |= loop_dom[expr_text(f.iter)]
+        names: list[str] = []
+        for fr in body:
+            for a in tplq.guard_atoms(fr):
+                if natom(a) not in names:
+                    names.append(natom(a))
+        bad = None
+        for env in tplq.assignments(names):
+            printed = "".join((fr.text if fr.kind == "data" else "{{" + natom(fr.text) + "}}") for fr in body
+                              if tplq.guard_holds(fr, {a: env[natom(a)] for a in tplq.guard_atoms(fr)}))
+            if not re.fullmatch(r"\{\{<p>\.python_name\}\}=\{\{<p>\.python_name\}\},?", "".join(printed.split())):
+                bad = (env, " ".join(printed.split()))
+                break
+        rep.check(bad is None, "R02.10", f"model.py.jinja::from_dict::constructor-receives-decoded[{expr_text(_inline(f.iter, mdefs))}]",
+                  f"cls(...) does not receive the decoded value itself for every property: when {bad[0] if bad else None} the template prints "
+                  f"`{bad[1] if bad else None}`; a value substituted for UNSET is written by to_dict, so decode -> encode adds a key the instance "
+                  "did not have", where=f"{PKG}/templates/model.py.jinja:{f.lineno}", lhs=bad[1] if bad else None,
+                  rhs="{{<p>.python_name}}={{<p>.python_name}}, under every condition")
+    rep.floor("constructor_keyword_loops", n_ctor, 1)
+    # python side: python_name everywhere - the loops inside cls(...) (each prints python_name=python_name, above) take in every property
+    rep.check(ctor_dom == {True, False}, "R02.1", "model.py.jinja::constructor-keywords", "cls(...) is not called with python_name=python_name for every property",
+              where=f"{PKG}/templates/model.py.jinja", lhs=sorted(ctor_dom), rhs="<property.python_name>=<property.python_name> for every property")
+    # where from_dict pops: `<local> = ...` is only ever `<local> = <the pop>` (the conversions live in the kinds' construct macros)
+    reader_vias = {id(fr.via) for fr in readers}
+    for f, lv in prop_loops:
+        body = _region_frags(mt, [f])
+        if not any(id(fr.via) in reader_vias for fr in _stmt_frags([f], (nodes.Assign, nodes.AssignBlock, nodes.Output), ti=mt)):
+            continue
+        for i, a in enumerate(body[:-1]):
+            eq = body[i + 1]
+            m = re.match(r"\s*(:[^=\n]+)?=(?!=)\s*", eq.text) if a.kind == "expr" and eq.kind == "data" and natom(a.text) == "<p>.python_name" else None
+            if m is None or (i and body[i - 1].kind == "data" and re.search(r"[\w.\])]$", body[i - 1].text)):
+                continue       # (not the beginning of an assignment to the local)
+            rest = eq.text[m.end():]
+            if rest.strip():
+                vals = [rest]
+            else:
+                nxt = body[i + 2] if i + 2 < len(body) else None
+                vals = ["".join(p_ if isinstance(p_, str) else "{{" + p_[1] + "}}" for p_ in alt.parts) for alt in texts.expr(nxt.node)] if nxt is not None and nxt.kind == "expr" else [""]
+            ok = all(v.lstrip().startswith("d.pop(") for v in vals)
+            rep.check(ok, "R02.10", "model.py.jinja::from_dict::local-bound-from-pop", "in from_dict a property's local is assigned from something else "
+                      "than the pop of its key: the value that reaches cls(...) is not the decoded one", where=f"{PKG}/templates/model.py.jinja:{a.line}",
+                      lhs=[v[:60] for v in vals], rhs="d.pop(\"<property.name>\"...)")
 
     # ---- R02.2 / R02.3 ----------------------------------------------------------------------------------------------------
     n_k = 0
@@ -288,15 +419,18 @@ def run(rep: Report, ctx: Any) -> str:
                       "construct) only when it is the last member and no pass-through member was seen before it")
     _union_fallthrough(rep, jx)
     rep.rule("R02.8", "union members are tried in document order: the list given to UnionProperty(inner_properties=...) is assembled in single "
-                      "passes (no second pass over the same sequence, i.e. no partition) and never sorted / reversed / made a set; the decode "
-                      "loop iterates property.inner_properties itself")
+                      "passes (no second pass over the same sequence, i.e. no partition), never sorted / made a set, and arrives the right "
+                      "way round (reversed / [::-1] / taking from the end / putting in front cancel in pairs; a work list is refilled at "
+                      "the end it is consumed at); the decode loop iterates property.inner_properties itself")
     _member_order(rep, ix)
     rep.rule("R02.9", "whatever collects a property's imports for a model module collects its lazy imports on the same paths (the model "
                       "classes that the emitted decode/encode code names are imported lazily); a kind that forwards get_imports to its inner "
                       "properties forwards get_lazy_imports too")
     _imports_parity(rep, ix)
     rep.not_decided += ["that construct(transform(x)) == x on values (isoparse(x.isoformat()), which of two overlapping union members accepts a "
-                        "value, recursion)", "a union member without a type check (const) is decoded in terminal form wherever it stands"]
+                        "value, recursion)", "a union member without a type check (const) is decoded in terminal form wherever it stands",
+                        "the direction of a loop that walks a member list by a computed index or position (taken to run forwards); in which order "
+                        "the parts of a union (anyOf, oneOf, type list) follow each other"]
     return LEVEL
 
 
@@ -360,8 +494,9 @@ def _union_fallthrough(rep: Report, jx: Any) -> None:
 
 
 # ---- R02.8 ---------------------------------------------------------------------------------------------------------------------
-_REORDER_CALLS = {"sorted", "set", "frozenset", "reversed"}
-_REORDER_METHODS = {"sort", "reverse", "insert"}
+_UNORDER_CALLS = {"sorted", "set", "frozenset"}
+FWD, REV, LOST = "forward", "reversed", "lost"
+Orient = dict      # {FWD | REV | LOST: where it came about}.  {}: nothing with an order of its own (an empty list, one element)
 
 
 def _own(fn: ast.AST) -> Iterator[ast.AST]:
@@ -378,6 +513,335 @@ def _src(e: ast.AST) -> str:
     while isinstance(e, ast.Call) and isinstance(e.func, ast.Name) and e.func.id in ("enumerate", "list", "tuple", "iter") and e.args:
         e = e.args[0]
     return norm(e)
+
+
+def _join(*os: Orient) -> Orient:
+    out: Orient = {}
+    for o in os:
+        for k, v in o.items():
+            out.setdefault(k, v)
+    return out
+
+
+def _flip(o: Orient, why: str) -> Orient:
+    out: Orient = {}
+    if FWD in o:
+        out[REV] = why
+    if REV in o:
+        out[FWD] = ""
+    if LOST in o:
+        out[LOST] = o[LOST]
+    return out
+
+
+def _const_int(e: ast.AST | None) -> int | None:
+    if isinstance(e, ast.UnaryOp) and isinstance(e.op, ast.USub) and isinstance(e.operand, ast.Constant) and type(e.operand.value) is int:
+        return -e.operand.value
+    return e.value if isinstance(e, ast.Constant) and type(e.value) is int else None
+
+
+def _param_of(h: Any, c: ast.Call, nm: str) -> list[ast.AST]:
+    """the argument(s) of the call c of h that parameter nm receives"""
+    a = h.node.args
+    pos = [x.arg for x in [*a.posonlyargs, *a.args]]
+    if h.kind in ("method", "classmethod", "property") and isinstance(c.func, ast.Attribute) and pos:
+        pos = pos[1:]     # self / cls is the receiver
+    for k in c.keywords:
+        if k.arg == nm:
+            return [k.value]
+    if nm in pos and pos.index(nm) < len(c.args) and not any(isinstance(x, ast.Starred) for x in c.args[:pos.index(nm) + 1]):
+        return [c.args[pos.index(nm)]]
+    if any(isinstance(x, ast.Starred) for x in c.args) or any(k.arg is None for k in c.keywords) or (a.vararg and a.vararg.arg == nm):
+        return [*c.args, *[k.value for k in c.keywords]]
+    return []     # left to its default
+
+
+class _Order:
+    """Which way round the sequences on the way to `inner_properties` are, relative to what they were made from.  What comes in (a
+    parameter of the root, an attribute) is in document order by definition: FWD.  `reversed(x)` / `x[::-1]` turn a sequence round,
+    and so does taking the elements from the end (`pop()`) or putting them in front (`insert(0, ..)`, `appendleft`): two of these
+    cancel, one does not.  `sorted` / `set` / `frozenset` / `.sort()` / a position that is not understood lose the order.  A list that
+    is consumed and refilled in the same loop is a work list: it keeps the order (depth first) only when it is refilled at the end it
+    is consumed at, with a block that lies the same way round as the list.  Parameters of the helpers are what the calls pass."""
+
+    def __init__(self, scope: list[Any], by_name: dict[str, Any], root: Any) -> None:
+        self.scope, self.by_name, self.root = scope, by_name, root
+        self.table: dict[tuple, Orient] = {}
+        self.done: set[tuple] = set()
+        self.active: set[tuple] = set()
+        self.changed = False
+        self._own_nodes: dict[str, list[ast.AST]] = {}
+        self._locals: dict[str, Locals] = {}
+        self._cfgs: dict[str, Any] = {}
+
+    # -- plumbing
+    def own(self, g: Any) -> list[ast.AST]:
+        if g.qual not in self._own_nodes:
+            self._own_nodes[g.qual] = list(_own(g.node))
+        return self._own_nodes[g.qual]
+
+    def defs(self, g: Any, nm: str) -> list[tuple[str, ast.AST, ast.AST | None]]:
+        if g.qual not in self._locals:
+            self._locals[g.qual] = Locals(g.node)
+        ids = {id(n) for n in self.own(g)}
+        return [d for d in self._locals[g.qual].defs.get(nm, []) if id(d[1]) in ids]
+
+    def loops_of(self, g: Any, x: ast.AST) -> list[ast.AST]:
+        """the loops of g around x, outermost first"""
+        hits = [lp for lp in self.own(g) if isinstance(lp, (ast.For, ast.AsyncFor, ast.While)) and lp is not x
+                and any(y is x for part in [*lp.body, *lp.orelse] for y in ast.walk(part))]
+        return sorted(hits, key=lambda lp: sum(1 for _ in ast.walk(lp)), reverse=True)
+
+    def memo(self, key: tuple, compute: Any) -> Orient:
+        if key in self.done or key in self.active:
+            return self.table.get(key, {})
+        self.active.add(key)
+        got = compute()
+        self.active.discard(key)
+        self.done.add(key)
+        new = _join(self.table.get(key, {}), got)
+        if new.keys() != self.table.get(key, {}).keys():
+            self.changed = True
+        self.table[key] = new
+        return new
+
+    def solve(self, sites: list[tuple[Any, ast.AST]]) -> list[Orient]:
+        res: list[Orient] = []
+        for _ in range(8):       # least fixed point: the values only grow ({} for what is being computed further up)
+            self.done.clear()
+            self.changed = False
+            res = [self.expr(g, v) for g, v in sites]
+            if not self.changed:
+                break
+        return res
+
+    # -- consumption
+    @staticmethod
+    def _takes(c: ast.AST) -> tuple[str, str] | None:
+        """(list variable, end) when c takes an element off a list: pop() / pop(-1) at the end, pop(0) / popleft() in front"""
+        if not (isinstance(c, ast.Call) and isinstance(c.func, ast.Attribute) and isinstance(c.func.value, ast.Name)) or c.keywords:
+            return None
+        nm, a = c.func.value.id, c.func.attr
+        if a == "popleft" and not c.args:
+            return nm, "front"
+        if a == "pop" and len(c.args) <= 1:
+            k = _const_int(c.args[0]) if c.args else -1
+            if k is None:
+                return None      # a key (a dict's pop) or a computed position: nothing is known
+            return nm, {-1: "end", 0: "front"}.get(k, "?")
+        return None
+
+    def taken(self, g: Any, parts: list[ast.AST]) -> Orient:
+        """the order in which the pops inside `parts` hand out the elements of their lists"""
+        out: Orient = {}
+        for part in parts:
+            for c in ast.walk(part):
+                t = self._takes(c)
+                if t is None:
+                    continue
+                o = self.name(g, t[0])
+                out = _join(out, o if t[1] == "front" else _flip(o, f"{where(g, c)}: .pop() takes the elements from the end") if t[1] == "end"
+                            else {LOST: f"{where(g, c)}: .pop({norm(c.args[0])}) takes an element from the middle"})
+        return out
+
+    def consumed_ends(self, g: Any, lp: ast.AST, nm: str) -> set[str]:
+        ends = {t[1] for part in [*lp.body, *lp.orelse] for c in ast.walk(part) for t in [self._takes(c)] if t is not None and t[0] == nm}
+        if isinstance(lp, (ast.For, ast.AsyncFor)) and _src(lp.iter) == nm:
+            ends.add("front")
+        return ends
+
+    def loop_orient(self, g: Any, lp: ast.AST) -> Orient:
+        o = self.expr(g, lp.iter) if isinstance(lp, (ast.For, ast.AsyncFor)) else {}
+        return _join(o, self.taken(g, [*lp.body, *lp.orelse]))
+
+    # -- values
+    def name(self, g: Any, nm: str) -> Orient:
+        grows = any(isinstance(c, ast.Call) and isinstance(c.func, ast.Attribute) and isinstance(c.func.value, ast.Name) and c.func.value.id == nm
+                    for c in self.own(g))
+        if self.defs(g, nm) or (grows and nm not in {a.arg for a in g.params}):
+            return self.memo((g.qual, nm), lambda: self.var(g, nm))
+        a = g.node.args
+        if nm in {x.arg for x in [*g.params, *([a.vararg] if a.vararg else []), *([a.kwarg] if a.kwarg else [])]}:
+            return self.memo((g.qual, "<param>", nm), lambda: self.param(g, nm))
+        if g.parent is not None and g.parent in self.scope:
+            return self.name(g.parent, nm)     # a variable of the enclosing function
+        return {}
+
+    def param(self, g: Any, nm: str) -> Orient:
+        if g is self.root:
+            return {FWD: ""}
+        out: Orient = {}
+        n_calls = 0
+        for g2 in self.scope:
+            for c in self.own(g2):
+                if isinstance(c, ast.Call) and self.by_name.get(call_name(c).rsplit(".", 1)[-1]) is g:
+                    n_calls += 1
+                    out = _join(out, *[self.expr(g2, a) for a in _param_of(g, c, nm)])
+        return out if n_calls else {FWD: ""}
+
+    def returns(self, h: Any) -> Orient:
+        def compute() -> Orient:
+            out: Orient = {}
+            for r in self.own(h):
+                if isinstance(r, ast.Return):
+                    out = _join(out, self.expr(h, r.value))
+                elif isinstance(r, ast.Yield):
+                    out = _join(out, self.placed(h, "", r, {}, front=False))
+                elif isinstance(r, ast.YieldFrom):
+                    out = _join(out, self.placed(h, "", r, self.expr(h, r.value), front=False))
+            return out
+        return self.memo((h.qual, "<return>"), compute)
+
+    def expr(self, g: Any, e: ast.AST | None) -> Orient:
+        if e is None:
+            return {}
+        if isinstance(e, ast.Name):
+            return self.name(g, e.id)
+        if isinstance(e, ast.Attribute):
+            return {FWD: ""}
+        if isinstance(e, (ast.List, ast.Tuple)):
+            return _join(*[self.expr(g, x) for x in e.elts])
+        if isinstance(e, ast.Set):
+            return {LOST: f"{where(g, e)}: a set display has no order"} if len(e.elts) > 1 else {}
+        if isinstance(e, ast.SetComp):
+            return {LOST: f"{where(g, e)}: a set comprehension has no order"}
+        if isinstance(e, (ast.ListComp, ast.GeneratorExp, ast.DictComp)):
+            parts = [e.key, e.value] if isinstance(e, ast.DictComp) else [e.elt]
+            return _join(*[self.expr(g, gen.iter) for gen in e.generators], self.taken(g, parts))
+        if isinstance(e, ast.Subscript):
+            o = self.expr(g, e.value)
+            if isinstance(e.slice, ast.Slice) and e.slice.step is not None:
+                k = _const_int(e.slice.step)
+                if k is None or k == 0:
+                    return {LOST: f"{where(g, e)}: a slice with a computed step"}
+                return _flip(o, f"{where(g, e)}: [::{k}] turns the sequence round") if k < 0 else o
+            return o
+        if isinstance(e, ast.BinOp):
+            return _join(self.expr(g, e.left), self.expr(g, e.right))
+        if isinstance(e, ast.IfExp):
+            return _join(self.expr(g, e.body), self.expr(g, e.orelse))
+        if isinstance(e, ast.BoolOp):
+            return _join(*[self.expr(g, v) for v in e.values])
+        if isinstance(e, (ast.NamedExpr, ast.Starred, ast.Await)):
+            return self.expr(g, e.value)
+        if isinstance(e, ast.Call):
+            return self.call(g, e)
+        return {}
+
+    def call(self, g: Any, c: ast.Call) -> Orient:
+        fn = c.func
+        if isinstance(fn, ast.Name):
+            if fn.id == "reversed" and c.args:
+                return _flip(self.expr(g, c.args[0]), f"{where(g, c)}: reversed(...) turns the sequence round")
+            if fn.id in _UNORDER_CALLS:
+                return {LOST: f"{where(g, c)}: {fn.id}(...) gives up the order of its argument"}
+            if fn.id == "range":
+                k = _const_int(c.args[2]) if len(c.args) == 3 else 1
+                return {LOST: f"{where(g, c)}: range with a computed step"} if not k else {REV: f"{where(g, c)}: range counts down"} if k < 0 else {FWD: ""}
+        h = self.by_name.get(call_name(c).rsplit(".", 1)[-1])
+        if h is not None:
+            return self.returns(h)      # (its parameters are what the calls pass: `param`)
+        recv = [fn.value] if isinstance(fn, ast.Attribute) else []
+        return _join(*[self.expr(g, a) for a in [*recv, *c.args, *[k.value for k in c.keywords]]])
+
+    # -- lists that are put together piece by piece
+    def placed(self, g: Any, nm: str, at: ast.AST, block: Orient, front: bool, turned: bool = False) -> Orient:
+        """what a piece put at the end / in front of the list nm at `at` adds to the list's orientation: `block` is the piece's own
+        orientation ({}: one element), `turned`: the piece goes in element by element, i.e. turned round (extendleft)"""
+        around: Orient = {}
+        for lp in self.loops_of(g, at):
+            ends = self.consumed_ends(g, lp, nm) if nm else set()
+            if ends:        # a work list: the piece takes the place of the element just taken
+                want = "front" if front else "end"
+                if ends != {want}:
+                    return {LOST: f"{where(g, at)}: a work list that is consumed at its {'/'.join(sorted(ends))} is refilled at its {want}: what is "
+                                  "found inside a member comes after the members that follow it"}
+                continue
+            around = _join(around, self.loop_orient(g, lp))
+        # the pieces follow each other as the loops around hand them out - the other way round when each goes in front of the last
+        why = f"{where(g, at)}: every piece is put in front of the one before"
+        if not front:
+            return _join(around, block)
+        return _flip(_join(around, block), why) if turned else _join(_flip(around, why), block)
+
+    @staticmethod
+    def _operands(v: ast.AST) -> list[ast.AST]:
+        if isinstance(v, ast.BinOp) and isinstance(v.op, ast.Add):
+            return _Order._operands(v.left) + _Order._operands(v.right)
+        if isinstance(v, (ast.List, ast.Tuple)) and any(isinstance(x, ast.Starred) for x in v.elts):
+            return [x.value if isinstance(x, ast.Starred) else x for x in v.elts]
+        if isinstance(v, ast.Call) and call_name(v).rsplit(".", 1)[-1] in ("chain", "list", "tuple") and not v.keywords:
+            return [y for x in v.args for y in _Order._operands(x)] if len(v.args) > 1 or call_name(v) in ("list", "tuple") else [v]
+        return [v]
+
+    def var(self, g: Any, nm: str) -> Orient:
+        out: Orient = {}
+        own = self.own(g)
+        for kind, st, v in self.defs(g, nm):
+            if kind.startswith("for") or v is None:
+                continue            # an element of a sequence
+            if kind == "aug":
+                out = _join(out, self.placed(g, nm, st, self.expr(g, v), front=False))
+                continue
+            ops = self._operands(v)
+            me = [i for i, x in enumerate(ops) if isinstance(x, ast.Name) and x.id == nm]
+            if me and len(ops) > 1 and not kind.startswith("assign["):     # nm = nm + piece / piece + nm
+                rest = _join(*[self.expr(g, x) for i, x in enumerate(ops) if i not in me])
+                if me == [0] or me == [len(ops) - 1]:
+                    out = _join(out, self.placed(g, nm, st, rest, front=me != [0]))
+                else:
+                    out = _join(out, {LOST: f"{where(g, st)}: pieces are put on both sides of the list"})
+            else:
+                out = _join(out, self.expr(g, v))
+        turns: list[ast.Call] = []
+        for c in own:
+            if isinstance(c, ast.Assign):
+                for t in c.targets:
+                    if isinstance(t, ast.Subscript) and isinstance(t.value, ast.Name) and t.value.id == nm and isinstance(t.slice, ast.Slice):
+                        lo, hi = t.slice.lower, t.slice.upper
+                        if t.slice.step is None and (lo is None or _const_int(lo) == 0) and _const_int(hi) == 0:
+                            out = _join(out, self.placed(g, nm, c, self.expr(g, c.value), front=True))
+                        elif t.slice.step is None and hi is None and lo is not None and norm(lo) == f"len({nm})":
+                            out = _join(out, self.placed(g, nm, c, self.expr(g, c.value), front=False))
+                        else:
+                            out = _join(out, {LOST: f"{where(g, c)}: a slice of the list is replaced"})
+            if not (isinstance(c, ast.Call) and isinstance(c.func, ast.Attribute) and isinstance(c.func.value, ast.Name) and c.func.value.id == nm):
+                continue
+            a = c.func.attr
+            arg = c.args[0] if c.args else None
+            if a == "append":
+                out = _join(out, self.placed(g, nm, c, {}, front=False))
+            elif a == "appendleft":
+                out = _join(out, self.placed(g, nm, c, {}, front=True))
+            elif a == "extend":
+                out = _join(out, self.placed(g, nm, c, self.expr(g, arg), front=False))
+            elif a == "extendleft":
+                out = _join(out, self.placed(g, nm, c, self.expr(g, arg), front=True, turned=True))
+            elif a == "insert" and len(c.args) == 2:
+                if _const_int(arg) == 0:
+                    out = _join(out, self.placed(g, nm, c, {}, front=True))
+                elif norm(arg) == f"len({nm})":
+                    out = _join(out, self.placed(g, nm, c, {}, front=False))
+                else:
+                    out = _join(out, {LOST: f"{where(g, c)}: .insert({norm(arg)}, ...) puts an element at a position that is not understood"})
+            elif a == "sort":
+                out = _join(out, {LOST: f"{where(g, c)}: .sort() gives up the order"})
+            elif a == "reverse":
+                turns.append(c)
+        if turns:
+            # in-place reversal: understood when it happens once, outside any loop, after the list is complete
+            c = turns[0]
+            st = stmt_of(g.node, c)
+            cfg = cfg_of(g, self._cfgs)
+            later = cfg.reachable_from(st) - {st} if st is not None else set()
+            fills = [stmt_of(g.node, x) for x in own if (isinstance(x, ast.Call) and isinstance(x.func, ast.Attribute) and isinstance(x.func.value, ast.Name)
+                                                       and x.func.value.id == nm and x.func.attr in ("append", "appendleft", "extend", "extendleft", "insert"))]
+            fills += [d[1] for d in self.defs(g, nm)]
+            if len(turns) == 1 and not self.loops_of(g, c) and not any(f is later_st for f in fills for later_st in later):
+                out = _flip(out, f"{where(g, c)}: .reverse() turns the list round")
+            else:
+                out = _join(out, {LOST: f"{where(g, c)}: .reverse() while the list is still being put together"})
+        return out
 
 
 def _member_order(rep: Report, ix: Any) -> None:
@@ -402,10 +866,6 @@ def _member_order(rep: Report, ix: Any) -> None:
         comps: dict[str, int] = {}
         for n in ast.walk(e):
             if isinstance(n, ast.Call):
-                if isinstance(n.func, ast.Name) and n.func.id in _REORDER_CALLS:
-                    viol.append(f"{where(g, n)}: {n.func.id}(...) on the way to inner_properties")
-                if isinstance(n.func, ast.Attribute) and n.func.attr in _REORDER_METHODS:
-                    viol.append(f"{where(g, n)}: .{n.func.attr}(...) on the way to inner_properties")
                 h = by_name.get(call_name(n).rsplit(".", 1)[-1])
                 if h is not None and (h.qual, "<return>") not in seen:
                     seen.add((h.qual, "<return>"))
@@ -428,7 +888,14 @@ def _member_order(rep: Report, ix: Any) -> None:
         own_ids = {id(n) for n in own}
         ds = [d for d in Locals(g.node).defs.get(nm, []) if id(d[1]) in own_ids]
         if not ds:
-            return   # a parameter / closure variable / global: an input of g
+            # a parameter: what the calls of g pass for it (a parameter of build / a closure variable / a global is an input)
+            if g is not build and nm in {a.arg for a in g.params}:
+                for g2 in scope:
+                    for c in _own(g2.node):
+                        if isinstance(c, ast.Call) and by_name.get(call_name(c).rsplit(".", 1)[-1]) is g:
+                            for a in _param_of(g, c, nm):
+                                trace(g2, a)
+            return
         loops = [n for n in own if isinstance(n, (ast.For, ast.AsyncFor, ast.While))]
 
         def outer_loop(x: ast.AST) -> ast.AST | None:
@@ -453,9 +920,7 @@ def _member_order(rep: Report, ix: Any) -> None:
             passes.append(pass_of(st, v) if isinstance(v, (ast.ListComp, ast.GeneratorExp)) or kind == "aug" else (id(st), norm(v)))
         for c in own:
             if isinstance(c, ast.Call) and isinstance(c.func, ast.Attribute) and isinstance(c.func.value, ast.Name) and c.func.value.id == nm:
-                if c.func.attr in _REORDER_METHODS:
-                    viol.append(f"{where(g, c)}: .{c.func.attr}(...) on a list on the way to inner_properties")
-                elif c.func.attr in ("append", "extend"):
+                if c.func.attr in ("append", "extend", "appendleft", "extendleft", "insert"):
                     for a in c.args:
                         trace(g, a)
                     passes.append(pass_of(c, c.args[0] if c.func.attr == "extend" and c.args and outer_loop(c) is None else None))
@@ -470,6 +935,9 @@ def _member_order(rep: Report, ix: Any) -> None:
     rep.floor("union_member_list_sites", len(sites), 1)
     for g, v in sites:
         trace(g, v)
+    # which way round the list arrives: reversals in even number cancel (a stack that is filled backwards and emptied from its end)
+    for o in _Order(scope, by_name, build).solve(sites):
+        viol += [f"{o[k]}: {msg}" for k, msg in ((REV, "the members arrive in reverse order"), (LOST, "the order of the members is given up")) if k in o]
     rep.check(not viol, "R02.8", "UnionProperty.build::member-order", "the members of a union are not kept in document order, so decoding tries "
               f"a later (possibly more permissive) member first: {viol[:3]}", where=build.where, lhs=viol[:3], rhs="single passes, no reordering")
 
